@@ -59,9 +59,20 @@ pub fn eval_node<F: FnMut(&GraphColoredVertices, &str)>(
     // canonical version of the current formula and canonized mappings of its domains
     let canonized_formula_with_domains = (canonized_form.clone(), canonical_domains.clone());
 
-    if eval_context
-        .duplicates
-        .contains_key(&canonized_formula_with_domains)
+    // The cache key describes the domains of only those variables that occur in this sub-formula.
+    // If another variable in scope has a restricted domain, the result depends on a restriction
+    // of the graph that the key does not capture, and the cache must not be used. The exception
+    // are the wild-card sets, which are the same in every universe (up to the final intersection).
+    let is_wild_card = matches!(node.node_type, NodeType::Terminal(Atomic::WildCardProp(_)));
+    let key_describes_universe = eval_context
+        .free_var_domains
+        .iter()
+        .all(|(variable, domain)| domain.is_none() || renaming.contains_key(variable));
+
+    if (is_wild_card || key_describes_universe)
+        && eval_context
+            .duplicates
+            .contains_key(&canonized_formula_with_domains)
     {
         if eval_context
             .cache
@@ -82,7 +93,8 @@ pub fn eval_node<F: FnMut(&GraphColoredVertices, &str)>(
                 .clone();
 
             // if we already visited all of the duplicates, lets delete the cached value
-            if eval_context.duplicates[&canonized_formula_with_domains] == 0 {
+            // (wild-card sets are never dropped, because they cannot be recomputed)
+            if !is_wild_card && eval_context.duplicates[&canonized_formula_with_domains] == 0 {
                 eval_context
                     .duplicates
                     .remove(&canonized_formula_with_domains);
